@@ -259,6 +259,20 @@ def _check_misc(mode):
         truth = bool(np.allclose(Md, Md.conj().T))
         if bool(is_hermitian(Ms)) != truth or bool(is_hermitian(Md)) != truth:
             return False, f"is_hermitian on the sparse / dense matrix of {o} says {bool(is_hermitian(Ms))} / {bool(is_hermitian(Md))}, M == M^H is {truth}"
+    # reverse_qubit_order: default width = the operator's own width (not each term's), multi-term operators, explicit wider registers, twice = identity
+    for o in [PauliSum([PauliTerm("Z0", 2.0), PauliTerm("X0*Y2", 1.0)]), PauliSum([PauliTerm("Z0", 1.0), PauliTerm("Z1", -0.7)]), PauliSum([PauliTerm("X1", 1.0), PauliTerm("Z0*Y2", 0.5j), PauliTerm("I0", 0.3)]),
+              PauliSum([PauliTerm("Y0", 1.0), PauliTerm("Z1", 1.0), PauliTerm("X2", 1.0)]), PauliTerm("X0*Z2", 1.5).copy() + PauliTerm("Y1", 0.0) * 0]:
+        nq = o.n_qubits
+        for width in (None, nq, nq + 1):
+            w = nq if width is None else width
+            R = reverse_qubit_order(o) if width is None else reverse_qubit_order(o, width)
+            A, B = get_sparse_operator(o, w).toarray(), get_sparse_operator(R, w).toarray()
+            perm = [int(format(i, f"0{w}b")[::-1], 2) for i in range(2 ** w)]
+            if not np.allclose(B, A[np.ix_(perm, perm)]):
+                return False, f"reverse_qubit_order({o}, n_qubits={width}) is not the bit-reversal permutation of the matrix on {w} qubits"
+            RR = reverse_qubit_order(R) if width is None else reverse_qubit_order(R, width)
+            if not np.allclose(get_sparse_operator(RR, w).toarray(), A):
+                return False, f"reversing {o} twice (n_qubits={width}) is not the identity"
     herm = [PauliTerm("X0*Y1", 0.5), PauliSum([PauliTerm("Z0", 1.0), PauliTerm("Y1", -2.0)]), PauliSum(), PauliTerm("I0", 3.0)]
     nonherm = [PauliTerm("X0", 1j), PauliSum([PauliTerm("Z0", 1.0), PauliTerm("Y1", 0.5j)]), PauliTerm("I0", 1 + 1j)]
     for o in herm + nonherm:
